@@ -28,7 +28,12 @@ pub fn parse_ignore(source: &Path, config: &Config) -> Result<Option<Gitignore>>
         let gifile = source.join(".gitignore");
         info!("Using .gitignore file {:?}", gifile);
         let mut builder = GitignoreBuilder::new(source);
-        builder.add(&gifile);
+        // Only read a regular file: opening a FIFO (or a link to one)
+        // named .gitignore would block forever. Anything else there
+        // is simply an entry to be copied, with no patterns to offer.
+        if gifile.is_file() {
+            builder.add(&gifile);
+        }
         let ignore = builder.build()?;
         Some(ignore)
     } else {
